@@ -2,6 +2,8 @@ import MsPack.Cab.Headers
 import MsPack.Cab.Checksum
 import MsPack.Generated.Consts
 import MsPack.Zip.Inflate
+import MsPack.Lzx.Decoder
+import MsPack.Qtm.Decoder
 /-
 The block reader, the stream feeder and `extract` of cabd.c on a fault-free host.
 
@@ -125,6 +127,8 @@ def feederFuel (fd : Feeder) : Nat := 2 * (fd.numBlocks + 1 - fd.block) + 4
 inductive Dec
   | none (bufsize : Nat)
   | mszip (st : Zip.St Feeder)
+  | qtm (st : Qtm.St Feeder)
+  | lzx (st : Lzx.St Feeder)
   | unsupported (method : Nat)
 
 structure DState where
@@ -160,7 +164,8 @@ inductive ExtractResult
 
 /-- the feeder as a decoder's input source -/
 def feederSrc (files : Files) : Src Feeder :=
-  { read := fun fd n => feederRead files (feederFuel fd) fd n [] }
+  { read := fun fd n => feederRead files (feederFuel fd) fd n []
+    lzxLength := fun fd => fd.lzxLen }
 
 /-- loop bound handed to the bit-level decoders: every iteration of their loops consumes at
     least one input bit, and the input is at most all the files there are (+ the faked bytes) -/
@@ -174,6 +179,14 @@ def decompress (files : Files) (dec : Dec) (fd : Feeder) (bytes : Nat) : Except 
     match Zip.decompress (feederSrc files) (decFuel files) { st with src := fd } bytes with
     | .error f => .error f
     | .ok o => .ok (some ⟨o.err, o.written, .mszip o.st, o.st.src⟩)
+  | .qtm st =>
+    match Qtm.decompress (feederSrc files) (decFuel files) { st with src := fd } bytes with
+    | .error f => .error f
+    | .ok o => .ok (some ⟨o.err, o.written, .qtm o.st, o.st.src⟩)
+  | .lzx st =>
+    match Lzx.decompress (feederSrc files) (decFuel files) { st with src := fd } bytes with
+    | .error f => .error f
+    | .ok o => .ok (some ⟨o.err, o.written, .lzx o.st, o.st.src⟩)
   | .unsupported _ => .ok none
 
 /-- what `extract` needs to know about the member and its folder -/
@@ -204,8 +217,10 @@ def initDec (p : Params) (ct : Nat) : Option Dec :=
   match compMask ct with
   | 0 => some (.none p.bufSize)
   | 1 => (Zip.init nullFeeder p.bufSize p.fixMszip p.fill).map .mszip
-  | 2 => some (.unsupported 2)
-  | 3 => some (.unsupported 3)
+  | 2 => if Qtm.implemented then (Qtm.init nullFeeder ((ct >>> 8) &&& 0x1f) p.bufSize p.fill).map .qtm
+         else some (.unsupported 2)
+  | 3 => if Lzx.implemented then (Lzx.init nullFeeder ((ct >>> 8) &&& 0x1f) 0 p.bufSize 0 false p.fill).map .lzx
+         else some (.unsupported 3)
   | _ => Option.none
 
 /-- `cabd_extract` (fault-free host).  `d` is the instance's cached `self->d`. -/
